@@ -7,7 +7,7 @@ from __future__ import annotations
 import ast
 import re
 
-from ..astutil import call_attr, calls_in, guard_facts, unparse, walk_local
+from ..astutil import call_attr, calls_in, conjuncts, guard_facts, unparse, walk_local
 from ..cfg import CFG
 from ..dataflow import resolved_text
 from ..report import Finding, Report
@@ -247,12 +247,33 @@ def check_get_bases(idx: Index, rep: Report) -> None:
         r.fail(g.fq, Finding("C09.R1", g.fq, "anyof-dispatch", "AnyOf.verify must dispatch on the exact class, fall back to the abstract alternative and reject otherwise: " + "; ".join(bad), g.loc))
 
 
-ABSORB_OK = [
-    r"self == other",
-    r"self\.base_attr == other\.attr",
-    r"isinstance\(self\.attr, other\.attr\)",
-    r"all\(\(isinstance\((\w+), other\.attr\) for \1 in self\.values\)\)",
-]
+# condition (normalised positive fact) -> the side that may be kept (None: either, the two are equal)
+ABSORB_OK = {
+    r"self == other": None,
+    r"other == self": None,
+    r"self\.base_attr == other\.attr": "other",
+    r"other\.attr == self\.base_attr": "other",
+    r"self\.base_attr is other\.attr": "other",
+    r"isinstance\(self\.attr, other\.attr\)": "other",
+    r"all\(\(isinstance\((\w+), other\.attr\) for \1 in self\.values\)\)": "other",
+}
+
+
+def _split_ifexp(v, facts):
+    if isinstance(v, ast.IfExp):
+        yield from _split_ifexp(v.body, facts + list(conjuncts(v.test, True)))
+        yield from _split_ifexp(v.orelse, facts + list(conjuncts(v.test, False)))
+    else:
+        yield v, facts
+
+
+def _norm_fact(a, pol):
+    """(text, polarity) with `x != y` false turned into `x == y` true (and the reverse)."""
+    if isinstance(a, ast.Compare) and len(a.ops) == 1 and not pol:
+        flip = {ast.NotEq: "==", ast.Eq: "!=", ast.IsNot: "is", ast.Is: "is not"}.get(type(a.ops[0]))
+        if flip:
+            return f"{unparse(a.left)} {flip} {unparse(a.comparators[0])}", True
+    return unparse(a), pol
 
 
 def check_relax(idx: Index, rep: Report) -> None:
@@ -265,16 +286,23 @@ def check_relax(idx: Index, rep: Report) -> None:
         n += 1
         other = f.node.args.args[1].arg
         problems = []
+        built_under: list[list[str]] = []
         for rt in [x for x in walk_local(f.node) if isinstance(x, ast.Return)]:
-            v = rt.value
-            if v is None or (isinstance(v, ast.Constant) and v.value is None):
+          if rt.value is None:
+            continue
+          for v, extra in _split_ifexp(rt.value, []):
+            if isinstance(v, ast.Constant) and v.value is None:
                 continue
             t = unparse(v)
-            facts = [(unparse(a), p) for a, p in guard_facts(f.node, rt) if not unparse(a).startswith("isinstance(other") and not unparse(a).startswith("not isinstance(other")]
-            if t in (other, "self") or re.fullmatch(rf"self if (.*) else None", t):
-                cond = re.fullmatch(r"self if (.*) else None", t)
-                conds = [cond.group(1)] if cond else [a for a, p in facts if p]
-                if any(re.fullmatch(p_, c) for c in conds for p_ in ABSORB_OK):
+            facts = [_norm_fact(a, p) for a, p in list(guard_facts(f.node, rt)) + extra]
+            facts = [(a, p) for a, p in facts if not a.startswith("isinstance(other")]
+            if t in (other, "self"):
+                conds = [a for a, p in facts if p]
+                okc = [kept for c in conds for p_, kept in ABSORB_OK.items() if re.fullmatch(p_, c)]
+                if any(kept is None or kept == ("other" if t == other else "self") for kept in okc):
+                    continue
+                if okc:
+                    problems.append((f"absorb-wrong-side:{t}", f"`return {t}` under {conds}: the condition shows that self is included in {other}, so {other} is the side to keep; keeping self drops values of {other}"))
                     continue
                 problems.append((f"absorb-without-inclusion:{t}", f"`return {t}` drops the other alternative under the condition {conds or '(none)'}, which does not imply that the dropped side is included in the kept one (e.g. `any(isinstance(v, other.attr) ...)` keeps BaseAttr while some values of the set are outside it)"))
             elif isinstance(v, ast.Call) and unparse(v.func) == "AttrSetConstraint.get":
@@ -289,7 +317,7 @@ def check_relax(idx: Index, rep: Report) -> None:
                 if {recv.replace("super()", "self"), arg} != {"self", other}:
                     problems.append((f"delegation:{t}", f"`return {t}` does not relax the same two constraints"))
             elif isinstance(v, ast.Call) and unparse(v.func) == "ParamAttrConstraint":
-                pass  # checked below (typestate)
+                built_under.append([a for a, p in facts if p])  # loop checked below (typestate)
             else:
                 problems.append((f"unknown-result:{t[:40]}", f"`return {t}` is not a reviewed form of merging"))
         if f.cls.name == "ParamAttrConstraint":
@@ -300,9 +328,16 @@ def check_relax(idx: Index, rep: Report) -> None:
                 msg = _widening_typestate(f.node, loops[0])
                 if msg is not None:
                     problems.append(("second-widening", f"the merge loop must give up (return None) when a second parameter position differs: widening two positions accepts combinations neither alternative accepts ({msg})"))
-            t = re.sub(r"\s+", " ", unparse(f.node))
-            if "if self.base_attr != other.base_attr: return" not in t:
-                problems.append(("base-mismatch", "parametrized constraints of different base attributes must not be merged"))
+            same = {f"self.base_attr == {other}.base_attr", f"{other}.base_attr == self.base_attr", f"self.base_attr is {other}.base_attr", f"{other}.base_attr is self.base_attr"}
+            if not built_under:
+                problems.append(("no-merge-result", "no `return ParamAttrConstraint(...)` found"))
+            for conds in built_under:
+                if same & set(conds):
+                    continue
+                if any("base_attr" in c or re.search(r"(?<!isinstance)\(", c) for c in conds):
+                    problems.append(("base-guard-unrecognised", f"cannot read the conditions {conds} under which the merged ParamAttrConstraint is built"))
+                else:
+                    problems.append(("base-mismatch", f"a merged ParamAttrConstraint is built under {conds or '(no condition)'}: parametrized constraints of different base attributes must not be merged"))
         if problems:
             for k, m in problems:
                 r.fail(f.fq, Finding("C09.R2", f.fq, k, m, f.loc))
@@ -312,11 +347,100 @@ def check_relax(idx: Index, rep: Report) -> None:
         raise AnalysisError(f"only {n} relax_constraint definitions found")
     # AnyOf.get replaces exactly the relaxed pair
     f = idx.func(CONS, "AnyOf.get")
-    t = re.sub(r"\s+", " ", unparse(f.node))
-    if "if (v := c2.relax_constraint(c)) is not None: merged = True constrs[k] = v constrs.pop(i) break" in t:
-        r.ok(f.fq, f"{f.loc} a successful relaxation replaces constrs[k] and removes constrs[i]")
+    res = _merge_bookkeeping(f.node)
+    if res is None:
+        r.ok(f.fq, f"{f.loc} a successful relaxation replaces the earlier alternative and removes the later one")
     else:
-        r.fail(f.fq, Finding("C09.R2", f.fq, "merge-bookkeeping", "AnyOf.get must replace the earlier alternative by the relaxed one and drop the later one (and nothing else)", f.loc))
+        r.fail(f.fq, Finding("C09.R2", f.fq, res[0], res[1], f.loc))
+
+
+def _merge_bookkeeping(fn: ast.AST):
+    """None when the success branch of `<earlier>.relax_constraint(<later>)` stores the result in the slot of the earlier
+    alternative and removes the slot of the later one; ("merge-wrong-slot"|"merge-wrong-removal", msg) on positive evidence
+    of the contrary; ("merge-bookkeeping", msg) when the shape is not understood."""
+    shape = lambda m: ("merge-bookkeeping", "AnyOf.get must replace the earlier alternative by the relaxed one and drop the later one (and nothing else): " + m)
+    calls = [c for c in calls_in(fn) if call_attr(c) == "relax_constraint"]
+    if len(calls) != 1:
+        return shape(f"{len(calls)} relax_constraint calls in the function")
+    call = calls[0]
+    recv, arg = call.func.value, call.args[0]  # type: ignore[attr-defined]
+    # the branch taken when the result is not None
+    test_if = None
+    for n in walk_local(fn):
+        if isinstance(n, ast.If) and any(x is call for x in ast.walk(n.test)):
+            test_if = n
+    vname = None
+    body = None
+    if test_if is not None:
+        t = test_if.test
+        if isinstance(t, ast.Compare) and isinstance(t.left, ast.NamedExpr) and t.left.value is call and len(t.ops) == 1 and isinstance(t.comparators[0], ast.Constant) and t.comparators[0].value is None:
+            vname = t.left.target.id
+            body = test_if.body if isinstance(t.ops[0], ast.IsNot) else test_if.orelse if isinstance(t.ops[0], ast.Is) else None
+    else:
+        for n in walk_local(fn):
+            if isinstance(n, ast.Assign) and n.value is call and isinstance(n.targets[0], ast.Name):
+                vname = n.targets[0].id
+        if vname:
+            for n in walk_local(fn):
+                if isinstance(n, ast.If) and isinstance(n.test, ast.Compare) and unparse(n.test.left) == vname and len(n.test.ops) == 1 and isinstance(n.test.comparators[0], ast.Constant) and n.test.comparators[0].value is None:
+                    if isinstance(n.test.ops[0], ast.IsNot):
+                        body = n.body
+                    elif isinstance(n.test.ops[0], ast.Is) and n.orelse:
+                        body = n.orelse
+    if not vname or not body:
+        return shape("the branch taken on a successful relaxation was not identified")
+    # which list, which slots
+    defs: dict[str, list[ast.AST]] = {}
+    for n in walk_local(fn):
+        if isinstance(n, ast.Assign) and len(n.targets) == 1 and isinstance(n.targets[0], ast.Name):
+            defs.setdefault(n.targets[0].id, []).append(n.value)
+    earlier_slot = later_slot = lst = None
+    if isinstance(recv, ast.Name):
+        for n in walk_local(fn):
+            if isinstance(n, ast.For) and isinstance(n.target, ast.Tuple) and len(n.target.elts) == 2 and unparse(n.target.elts[1]) == recv.id and isinstance(n.iter, ast.Call) and unparse(n.iter.func) == "enumerate":
+                src = n.iter.args[0]
+                if isinstance(src, ast.Subscript) and isinstance(src.slice, ast.Slice) and src.slice.lower is None and src.slice.step is None:
+                    lst, earlier_slot = unparse(src.value), unparse(n.target.elts[0])
+                elif isinstance(src, ast.Name):
+                    lst, earlier_slot = src.id, unparse(n.target.elts[0])
+    elif isinstance(recv, ast.Subscript) and not isinstance(recv.slice, ast.Slice):
+        lst, earlier_slot = unparse(recv.value), unparse(recv.slice)
+    if isinstance(arg, ast.Name) and len(defs.get(arg.id, [])) == 1 and isinstance(defs[arg.id][0], ast.Subscript):
+        d = defs[arg.id][0]
+        if unparse(d.value) == lst and not isinstance(d.slice, ast.Slice):
+            later_slot = unparse(d.slice)
+    elif isinstance(arg, ast.Subscript) and unparse(arg.value) == lst and not isinstance(arg.slice, ast.Slice):
+        later_slot = unparse(arg.slice)
+    if lst is None or earlier_slot is None or later_slot is None:
+        return shape("the slots of the two relaxed alternatives were not identified")
+    stores, removals, order = [], [], []
+    for st in body:
+        for n in ast.walk(st):
+            if isinstance(n, ast.Assign) and isinstance(n.targets[0], ast.Subscript) and unparse(n.targets[0].value) == lst:
+                stores.append((unparse(n.targets[0].slice), unparse(n.value)))
+                order.append("store")
+            elif isinstance(n, ast.Call) and call_attr(n) == "pop" and unparse(n.func.value) == lst and len(n.args) == 1:  # type: ignore[attr-defined]
+                removals.append(unparse(n.args[0]))
+                order.append("remove")
+            elif isinstance(n, ast.Delete):
+                for tg in n.targets:
+                    if isinstance(tg, ast.Subscript) and unparse(tg.value) == lst:
+                        removals.append(unparse(tg.slice))
+                        order.append("remove")
+    pair = {earlier_slot, later_slot}
+    if len(stores) != 1 or len(removals) != 1 or stores[0][1] != vname:
+        return shape(f"stores {stores} / removals {removals} on the success branch")
+    (slot, _), rem = stores[0], removals[0]
+    covers = f"the relaxed constraint `{vname}` covers {lst}[{earlier_slot}] and {lst}[{later_slot}]"
+    if slot not in pair:
+        return ("merge-wrong-slot", f"{covers}, but it is stored in {lst}[{slot}]: an unrelated alternative is overwritten and the union shrinks")
+    if rem not in pair:
+        return ("merge-wrong-removal", f"{covers}, but {lst}[{rem}] is removed: an unrelated alternative is dropped and the union shrinks")
+    if slot == rem:
+        return ("merge-wrong-removal", f"{covers}, but it is stored in {lst}[{slot}] and the same slot is removed: the relaxed constraint is lost")
+    if order == ["remove", "store"] and rem == earlier_slot:
+        return ("merge-wrong-slot", f"{covers}; {lst}[{rem}] (the smaller index) is removed first, so the following store to {lst}[{slot}] lands on the alternative after the later one")
+    return None
 
 
 TYPEVAR_PLACEHOLDERS = {
